@@ -33,3 +33,23 @@ func TestCorruptBlockPopHangs(t *testing.T) {
 		t.Fatalf("pop(5) did not return within 2s: scanSection spins on a lone continuation byte")
 	}
 }
+
+// Candidate: a block with ONE restart section opened with a descriptor claiming
+// entries = 257 (entries%256 == 1, entries != 1): pop(max) drops the only
+// restart and then indexes restarts[-1].
+func TestLyingDescPopPanics(t *testing.T) {
+	w0, _ := pathdb.VerifC19NewBlockWriter(nil, 0, 0, 0, 0, 0)
+	w0.Append(7, nil)
+	w0.Append(9, nil)
+	blob := append([]byte{}, w0.Finish()...)
+	w, err := pathdb.VerifC19NewBlockWriter(blob, 9, 257, 0, 0, math.MaxUint64)
+	if err != nil {
+		t.Fatalf("writer rejected the blob: %v", err)
+	}
+	defer func() {
+		if e := recover(); e != nil {
+			t.Fatalf("pop(9) panicked: %v", e)
+		}
+	}()
+	t.Logf("pop returned: %v", w.Pop(9))
+}
